@@ -62,7 +62,112 @@ def check(ex):
     return vs
 
 
+# ------------------------------------------------------------------ the backend API driven directly (no tuning loop)
+
+def api_world(ops):
+    """replay a sequence of TrialBackend calls on a fresh ScriptedBackend (default environment answers: every live job
+    reports one more level per poll and exits when its script is done); returns (backend, delivered, statuses)"""
+    log = []
+    spec = ScriptSpec(table(4, 4, 1.0), 4, max_resource_attr=None, checkpointing=True)
+    be = ScriptedBackend(tunerx.Chooser([]), spec, 2, profile=dict(burst=False, rr=False, lag=False), log=log, late_results=False)
+    delivered = {}
+    for op in ops:
+        if op[0] == "start":
+            be.start_trial(config={"a": 0.5})
+        elif op[0] == "poll":
+            _st, res = be.fetch_status_results(list(op[1]))
+            for t, r in res:
+                delivered.setdefault(t, []).append((r["st_worker_timestamp"], r[spec.resource_attr]))
+        elif op[0] == "pause":
+            be.pause_trial(op[1])
+        elif op[0] == "resume":
+            be.resume_trial(op[1])
+        elif op[0] == "stop":
+            be.stop_trial(op[1])
+    return be, delivered
+
+
+def api_enabled(be, n_started, T):
+    from ..backends import ALIVE
+    from syne_tune.backend.trial_status import Status
+    ops = []
+    alive = sorted(t for t, p in be.proc.items() if p == ALIVE)
+    paused = sorted(t for t, s_ in be.shown.items() if s_ == Status.paused)
+    if n_started < T and len(alive) < 2:
+        ops.append(("start",))
+    if alive or paused:
+        # a poll asks about every live trial and about any subset of the paused ones (a paused trial may be polled)
+        import itertools as it
+        for k in range(len(paused) + 1):
+            for sub in it.combinations(paused, k):
+                ops.append(("poll", tuple(sorted(alive + list(sub)))))
+    for t in alive:
+        ops.append(("pause", t))
+        ops.append(("stop", t))
+    for t in paused:
+        if len(alive) < 2:
+            ops.append(("resume", t))
+    return ops
+
+
+def api_violations(be, delivered):
+    """every report a job wrote (nothing is written after a pause/stop here) is delivered exactly once, in order, by the
+    first poll that asks about the trial after it was written"""
+    v = []
+    for t, lst in be.metrics.items():
+        want = [(m["st_worker_timestamp"], m[be.spec.resource_attr]) for m in lst]
+        got = delivered.get(t, [])
+        if got != want[:len(got)]:
+            v.append(("api:delivered-not-a-prefix-of-reported", f"trial {t}: delivered (stamp, level) {got}, reported {want}"))
+        elif getattr(be, "_polled_since_emit", {}).get(t) and len(got) < len(want):
+            pass
+    return v
+
+
+def task_api(cfg):
+    import collections
+    from ..core import Coverage
+    cov, viols = Coverage(), []
+    T, D = cfg["T"], cfg["D"]
+    seen, frontier = set(), collections.deque([()])
+    while frontier:
+        hist = frontier.popleft()
+        be, delivered = api_world(hist)
+        cov.add("states")
+        # judged right after a poll of ALL live and paused trials: nothing reported may still be undelivered
+        for key, what in api_violations(be, delivered):
+            viols.append(Violation(PROP, "api|" + key, what + f" after {list(hist)}", {"engine": "api", "ops": [list(o) for o in hist]}))
+        if hist and hist[-1][0] == "poll":
+            from syne_tune.backend.trial_status import Status
+            asked = set(hist[-1][1])
+            for t in asked:
+                n_rep, n_del = len(be.metrics.get(t, [])), len(delivered.get(t, []))
+                if be.shown.get(t) not in (Status.paused, Status.stopped) and n_del < n_rep:
+                    viols.append(Violation(PROP, "api|api:report-not-delivered-by-the-poll-that-asks",
+                                           f"trial {t}: {n_rep} reports written, {n_del} delivered after {list(hist)}",
+                                           {"engine": "api", "ops": [list(o) for o in hist]}))
+        if viols or len(hist) >= D:
+            if viols:
+                break
+            continue
+        n_started = sum(1 for o in hist if o[0] == "start")
+        for op in api_enabled(be, n_started, T):
+            h2 = hist + (op,)
+            b2, d2 = api_world(h2)
+            cov.add("transitions")
+            dig = repr((sorted(b2.proc.items()), sorted((t, str(s_)) for t, s_ in b2.shown.items()), sorted((t, len(m)) for t, m in b2.metrics.items()),
+                        sorted((t, len(x)) for t, x in d2.items()), sorted(b2._last_metric_seen_index.items()), sorted(b2.run_idx.items())))
+            if dig not in seen:
+                seen.add(dig)
+                frontier.append(h2)
+    tunerx.clean_scratch()
+    cov.add("distinct_nontrivial", len(seen))
+    return cov, viols[:3]
+
+
 def task(cfg):
+    if cfg.get("api"):
+        return task_api(cfg)
     return tunerx.explore(build_factory(cfg), check, PROP, label(cfg), bound=cfg["k"], max_exec=cfg.get("max_exec"),
                           loop_cap=cfg.get("loop_cap", 150), ctx=ctx_of(cfg),
                           state_of=lambda ex: [tuple(sorted((t, len(m)) for t, m in ex.backend.metrics.items())) + (getattr(ex, "n_delivered", 0),)])
@@ -114,7 +219,7 @@ def configs(tier, seed):
 
 def run(tier, seed):
     res = Result()
-    cfgs = configs(tier, seed)
+    cfgs = configs(tier, seed) + [dict(api=True, T=2, D=7 if tier == "quick" else 9)]
     for cov, viols in pmap(task, cfgs):
         res.cov.merge(cov)
         res.violations.extend(viols)
@@ -132,6 +237,22 @@ def run(tier, seed):
 
 
 def replay(data):
+    if data.get("engine") == "api":
+        ops = [tuple(tuple(x) if isinstance(x, list) else x for x in o) for o in data["ops"]]
+        out = []
+        for n in range(1, len(ops) + 1):
+            hist = tuple(ops[:n])
+            be, delivered = api_world(hist)
+            out += [Violation(PROP, "api|" + k, w) for k, w in api_violations(be, delivered)]
+            if hist[-1][0] == "poll":
+                from syne_tune.backend.trial_status import Status
+                for t in hist[-1][1]:
+                    n_rep, n_del = len(be.metrics.get(t, [])), len(delivered.get(t, []))
+                    if be.shown.get(t) not in (Status.paused, Status.stopped) and n_del < n_rep:
+                        out.append(Violation(PROP, "api|api:report-not-delivered-by-the-poll-that-asks",
+                                             f"trial {t}: {n_rep} reports written, {n_del} delivered after {list(hist)}"))
+        tunerx.clean_scratch()
+        return out[:1]
     cfg = dict(data["cfg"])
     prof = cfg["profile"]
     if isinstance(prof, str):
